@@ -223,7 +223,7 @@ func NewPrelude() *Prelude {
 	p.Add("dt:Time", "(declare-datatypes ((Time 0)) (((mkTime (tinst Int) (tloc Int)))))")
 	p.Add("fn:str.len", "(declare-fun str.len (Str) Int)")
 	p.Add("fn:str.at", "(declare-fun str.at (Str Int) Int)")
-	p.Add("ax:str.len", "(assert (forall ((s Str)) (! (>= (str.len s) 0) :pattern ((str.len s)))))")
+	p.Add("ax:str.len", "(assert (forall ((s Str)) (! (and (>= (str.len s) 0) (<= (str.len s) 4611686018427387904)) :pattern ((str.len s)))))")
 	p.Add("ax:str.at", "(assert (forall ((s Str) (i Int)) (! (and (<= 0 (str.at s i)) (<= (str.at s i) 255)) :pattern ((str.at s i)))))")
 	p.Add("const:str.empty", "(declare-const str.empty Str)")
 	p.Add("ax:str.empty", "(assert (= (str.len str.empty) 0))")
